@@ -3,3 +3,11 @@ package main
 import "strconv"
 
 func itoa(n int) string { return strconv.Itoa(n) }
+
+func atoi(s string) int {
+	n, err := strconv.Atoi(s)
+	if err != nil {
+		panic("bad integer in op: " + s)
+	}
+	return n
+}
